@@ -4,6 +4,7 @@ import math
 import random
 
 from vpm.oracles import sphere as sp
+from vpm import tol
 
 ID = "C06"
 RULE = ("Seeded generation. Directions uniform on the sphere plus a polar "
@@ -113,7 +114,11 @@ def pe(start, final, lon, lat, pml=0.0, pmb=0.0, which="equ"):
         a.set(lon)
         b.set(lat)
     else:
-        es, ef, a, b = Epoch(start), Epoch(final), Angle(lon), Angle(lat)
+        es, ef, a, b = Epoch(start), Epoch(final), tol.T(lon), tol.T(lat)
+    # the proper motions as plain numbers or as Angles, some of which carry
+    # a non-default comparison tolerance (vpm/tol.py)
+    if (pml or pmb) and _POOL["n"] % 3 == 0:
+        pml, pmb = tol.T(pml), tol.T(pmb)
     r = f(es, ef, a, b, pml, pmb)
     return r[0](), r[1]()
 
@@ -369,6 +374,11 @@ def run(mon, spec):
             start, final = gen_epochs(rng, 5.0)
             pml = rng.uniform(-10, 10) / 3600.0
             pmb = rng.uniform(-10, 10) / 3600.0
+            if rng.random() < 0.15:
+                # tiny proper motions: the displacement over centuries is
+                # still far above the 1e-9 degree the clause allows
+                pml = rng.choice((-1, 1)) * 10.0 ** rng.uniform(-11, -8)
+                pmb = rng.choice((-1, 1, 0)) * 10.0 ** rng.uniform(-11, -8)
             p = ["pm", [rng.choice(("equ", "ecl")), start, final, lon1,
                         max(-89.0, min(89.0, lat1)), pml, pmb]]
         elif r < 0.9:
